@@ -501,10 +501,11 @@ fn cli_files(rep: &Report, n: usize, seed: u64) {
                 }
                 3 => {
                     // print statements whose range ends at, or one past, the last byte of memory
-                    let ds: u32 = *rng.pick(&[0u32, 1, 0x1000, 0xFFF0, 0xFFFF]);
+                    // segments and start addresses near the top keep the legitimate output small
+                    let ds: u32 = *rng.pick(&[0xFF00u32, 0xFFE0, 0xFFF0, 0xFFFE, 0xFFFF]);
                     let room = (1u32 << 20) - ds * 16;
                     let n = (room as i64 + rng.range(-2, 2)).max(0) as u32;
-                    let a = rng.below(1 << 20) as u32;
+                    let a = (1u32 << 20) - 1 - rng.below(4000) as u32;
                     let m = ((1i64 << 20) - a as i64 + rng.range(-2, 1)).max(0) as u32;
                     ("print-edge", format!("start:\nmov ax,{}\nmov ds,ax\nprint mem : {}\nprint mem {} : {}\nprint mem {} -> {}\nint 3\nmov bx,1\n", ds, n, a, m, a, (a as u64 + m as u64)).into_bytes())
                 }
@@ -518,7 +519,7 @@ fn cli_files(rep: &Report, n: usize, seed: u64) {
         // prompts (int 3 / -i) and console input get a mix of valid and garbage answers, then end of input
         let mut stdin: Vec<u8> = Vec::new();
         for _ in 0..rng.below(30) {
-            stdin.extend_from_slice(rng.pick(&["n\n", "n\n", "next\n", "print reg\n", "x\n", "\n", "print mem 0 -> 5\n", "q\n", "print mem : 16\n", "print mem : 15\n", "print mem 1048575 : 1\n", "print mem : 1048560\n"]).as_bytes());
+            stdin.extend_from_slice(rng.pick(&["n\n", "n\n", "next\n", "print reg\n", "x\n", "\n", "print mem 0 -> 5\n", "q\n", "print mem : 16\n", "print mem : 15\n", "print mem 1048575 : 1\n", "print mem 1048574 : 2\n"]).as_bytes());
         }
         let out = run_cli(&src, &CliOpts { interpreted: interp, stdin: &stdin, env: vec![("VERIF_NOMEM", "1")], timeout_s: 40.0, cap: 16 << 20, ..Default::default() });
         judge_cli(rep, &out, "source-file", family, &src, &stdin, interp, if core { Some(format!("f{}", i)) } else { None });
